@@ -81,6 +81,21 @@ impl<'ast> Visit<'ast> for LoopFinder {
         let s = e.span().byte_range();
         let b = e.body.brace_token.span.open().byte_range();
         self.loops.push((s.start, b.start, s.end));
+        // D14: for PAT in X.iter().copied() { ... }
+        if let syn::Expr::MethodCall(cp) = &*e.expr {
+            if cp.method == "copied" && cp.args.is_empty() {
+                if let syn::Expr::MethodCall(it) = &*cp.receiver {
+                    if it.method == "iter" && it.args.is_empty() {
+                        let pat = e.pat.span().byte_range();
+                        let recv = it.receiver.span().byte_range();
+                        self.vd.push(format!(
+                            "{{\"rule\":\"D14\",\"call\":[{},{}],\"recv\":[{},{}],\"pat\":[{},{}]}}",
+                            s.start, b.start + 1, recv.start, recv.end, pat.start, pat.end
+                        ));
+                    }
+                }
+            }
+        }
         syn::visit::visit_expr_for_loop(self, e);
     }
     fn visit_expr_loop(&mut self, e: &'ast syn::ExprLoop) {
